@@ -10,7 +10,7 @@ Lemma keys_step s o : keys (impl (fst (step s o))) = keys (impl s).
 Proof.
   destruct o as [a out|a|a|]; simpl; auto.
   - destruct a; reflexivity.
-  - unfold ic_check. destruct (ss_check _ _). reflexivity.
+  - unfold ic_check. destruct (restrict (keys (impl s)) a); [reflexivity|]. destruct (ss_check _ _). reflexivity.
 Qed.
 
 Lemma step_inv s o : Inv s -> op_ok (keys (impl s)) o = true -> Inv (fst (step s o)).
@@ -89,7 +89,7 @@ Proof.
     + intros c' Hc'. destruct o as [a out|a|a|]; simpl in *.
       * apply in_app_or in Hc' as [Hc'|[<-|[]]]; [now apply H0|].
         apply andb_true_iff in H1 as [_ H1]. exact H1.
-      * unfold ic_check in Hc'. destruct (ss_check _ _). simpl in Hc'. now apply H0.
+      * unfold ic_check in Hc'. destruct (restrict (keys (impl s)) a); [now apply H0|]. destruct (ss_check _ _). simpl in Hc'. now apply H0.
       * now apply H0.
       * destruct Hc'.
     + now rewrite keys_step.
